@@ -108,6 +108,61 @@ static void queue_pc(Src& s) {
     if (B > 0 && max_seen.load() >= B) vp::count("queue_reached_bound");
 }
 
+// ---------------------------------------------------------------- queue: plain consumers (one variable, every return is an element)
+// The consumers of the first scenario are defensive: a fresh variable per call, an empty-handed return is ignored. A plain consumer
+// re-uses its variable and takes what wait_and_pop() leaves in it for the next element; it stops at its end marker. The queue is
+// never shut down here, so wait_and_pop() may only return with an element.
+static void queue_plain_consumers(Src& s) {
+    const int P = 1 + static_cast<int>(s.draw(6));
+    const int C = 2 + static_cast<int>(s.draw(7));
+    const size_t bounds[] = {0, 1, 2, 3, 8, 100};
+    const size_t B = bounds[s.draw(6)];
+    const int N = 1 + static_cast<int>(s.draw(s.chance(1, 4) ? 3000 : 200));
+    const std::string desc = "queue with plain consumers P=" + std::to_string(P) + " C=" + std::to_string(C) + " bound=" + std::to_string(B) + " N=" + std::to_string(N);
+    if (vp::want_desc()) vp::describe(desc);
+    osmium::thread::Queue<Elem> q{B, "plain"};
+    std::vector<std::vector<Elem>> got(static_cast<size_t>(C));
+    std::vector<std::thread> producers, consumers;
+    for (int c = 0; c < C; ++c) {
+        consumers.emplace_back([&, c] {
+            Elem e;
+            for (;;) {
+                q.wait_and_pop(e);
+                if (e.producer == -2) break;  // end marker
+                got[static_cast<size_t>(c)].push_back(e);
+            }
+        });
+    }
+    for (int p = 0; p < P; ++p) {
+        producers.emplace_back([&, p] {
+            for (int i = 0; i < N; ++i) q.push(Elem{p, i});
+        });
+    }
+    join_all(producers);
+    for (int c = 0; c < C; ++c) q.push(Elem{-2, c});
+    join_all(consumers);  // (a consumer that never gets its end marker: watchdog / deadlock rule)
+    std::vector<std::vector<int>> count(static_cast<size_t>(P), std::vector<int>(static_cast<size_t>(N), 0));
+    for (int c = 0; c < C; ++c) {
+        std::vector<int> last(static_cast<size_t>(P), -1);
+        for (const Elem& e : got[static_cast<size_t>(c)]) {
+            VP_CHECK(e.producer >= 0 && e.producer < P && e.seq >= 0 && e.seq < N, "queue-invented", "consumer " << c << " took (" << e.producer << "," << e.seq << ") out of the queue, which was never pushed | " << desc);
+            ++count[static_cast<size_t>(e.producer)][static_cast<size_t>(e.seq)];
+            VP_CHECK(e.seq != last[static_cast<size_t>(e.producer)], "queue-duplicate", "consumer " << c << " got element (" << e.producer << "," << e.seq << ") twice in a row: wait_and_pop() returned without handing out a new element | " << desc);
+            VP_CHECK(e.seq > last[static_cast<size_t>(e.producer)], "queue-order", "consumer " << c << " saw producer " << e.producer << "'s element " << e.seq << " after " << last[static_cast<size_t>(e.producer)] << " | " << desc);
+            last[static_cast<size_t>(e.producer)] = e.seq;
+        }
+    }
+    for (int p = 0; p < P; ++p)
+        for (int i = 0; i < N; ++i) {
+            const int n = count[static_cast<size_t>(p)][static_cast<size_t>(i)];
+            VP_CHECK(n >= 1, "queue-lost", "element (" << p << "," << i << ") was pushed but never received | " << desc);
+            VP_CHECK(n <= 1, "queue-duplicate", "element (" << p << "," << i << ") was received " << n << " times | " << desc);
+        }
+    VP_CHECK(q.empty(), "queue-lost", "elements left in the queue after every consumer has seen its end marker | " << desc);
+    vp::nontrivial(vp::hash_str(desc) ^ perturb::cfg().seed.load());
+    vp::count("queue_plain_consumers");
+}
+
 // ---------------------------------------------------------------- queue: a producer at a full queue does not return before a pop
 static void queue_blocking(Src& s) {
     const size_t B = 1 + s.draw(4);
@@ -349,11 +404,12 @@ static void pool_tasks(Src& s) {
     }
     // all workers joined: thread count back at the baseline
     int now = perturb::thread_count();
-    for (int spin = 0; spin < 200 && now != baseline_threads; ++spin) {
+    for (int spin = 0; spin < 200 && now > baseline_threads; ++spin) {
         std::this_thread::sleep_for(std::chrono::milliseconds(1));
         now = perturb::thread_count();
     }
-    VP_CHECK(now == baseline_threads, "pool-thread-leak", "thread count " << now << " after pool destruction, baseline " << baseline_threads << " | " << desc);
+    // (fewer threads than before is no leak: a thread of an earlier scenario may still have been on its way out when the baseline was taken)
+    VP_CHECK(now <= baseline_threads, "pool-thread-leak", "thread count " << now << " after pool destruction, baseline " << baseline_threads << " | " << desc);
     vp::count("pool");
     if (workers >= 2 && M >= 2) vp::nontrivial(vp::hash_str(desc) ^ perturb::cfg().seed.load());
 }
@@ -369,7 +425,8 @@ static void prop(Src& s) {
     perturb::configure(s.draw(1ULL << 32), inten);
     int cpus[] = {0, 0, 1, 2, 4};
     perturb::set_cpus(cpus[s.draw(5)]);
-    switch (s.weighted({5, 1, 2, 4, 2})) {
+    switch (s.weighted({5, 1, 2, 4, 2, 3})) {
+        case 5: queue_plain_consumers(s); break;
         case 0: queue_pc(s); break;
         case 1: queue_blocking(s); break;
         case 2: queue_shutdown(s); break;
@@ -382,7 +439,7 @@ static void prop(Src& s) {
 }
 
 VP_MAIN(prop, "generated concurrent executions: queues with 1..8 producers x 1..8 consumers, bound in {0,1,2,3,8,100}, 1..2000 elements per producer, consumers using wait_and_pop / try_pop / "
-              "both, shutdown after completion or mid-stream, 100..400 rounds of shutdown racing with consumers that are just entering wait_and_pop; producer at a full queue; pools of 1..32 workers with value / exception / slow / task-submitting tasks, destruction with "
+              "both, or plain consumers (one variable, end markers, no shutdown); shutdown after completion or mid-stream, 100..400 rounds of shutdown racing with consumers that are just entering wait_and_pop; producer at a full queue; pools of 1..32 workers with value / exception / slow / task-submitting tasks, destruction with "
               "a non-empty queue; every execution under a seeded perturbation of the thread schedule (yield / sleep / spin at the OSMIUM_VERIF_SCHED hook points, five intensities) and a "
               "CPU set of 1/2/4/all cores. Oracle: multiset equality, per-producer order per consumer, size bound + P - 1, exactly-once counters, future values/exceptions, thread count "
               "back at baseline, watchdog for wake-ups. non-trivial = >= 2 producers and consumers / >= 2 workers and tasks; distinct by configuration x perturbation seed")
